@@ -55,6 +55,15 @@ class C20Monitor(Monitor):
         raw = getattr(w, "raw_verdict", verdict)
         w.result.cover.add(f"{drv}|{'bare' if is_bare else w.move_cat(name)}|{verdict}|"
                            f"{'natoms' if pre['n'] != post['n'] else ''}{'cell' if pre['cell'] != post['cell'] else ''}")
+        # a user move that is a member of a hand-built composite entry is executed once per trial of that entry,
+        # wherever it stands among its siblings and whatever they return
+        for p, ent in new.items():
+            if p.startswith(name + ".") and not p.endswith("#criteria"):
+                ncalls = sum(1 for e in ent if e[0] == "call" and e[1] == "__call__")
+                if ncalls != 1:
+                    self.violate(w, "bare_member_of_composite_not_executed_once", f"driver={drv}|calls={ncalls}",
+                                 f"{p} (member of the composite entry {name}) was called {ncalls} times in one trial")
+                w.result.count("probe.composite_members_checked")
         if is_bare:
             calls = [e for e in new[name] if e[0] == "call" and e[1] == "__call__"]
             if len(calls) != 1:
@@ -275,10 +284,16 @@ class C20(HistoryCampaign):
                 sc["moves"].append({"name": "wrapped", "criteria": {"Canonical": "Canonical", "HamiltonianCanonical": "Canonical",
                                                                      "Isobaric": "Isobaric", "Isotension": "Isotension",
                                                                      "GrandCanonical": "GrandCanonical"}[drv],
-                                    "move": {"type": "wrap", "items": [
-                                        {"type": "bare", "kind": "noop", "results": [rnd.choice([True, False, 1, 0])]},
-                                        {"type": "disp", "labels": self._labels_for(sc), "op": {"type": "Ball", "step": 0.1}}]}})
+                                    "move": {"type": "wrap", "items": self._wrapped_items(rnd, sc)}})
         return sc
+
+    def _wrapped_items(self, rnd, sc):
+        bare = {"type": "bare", "kind": "noop", "results": [rnd.choice([True, False, 1, 0])]}
+        disp = {"type": "disp", "labels": self._labels_for(sc), "op": {"type": "Ball", "step": 0.1}}
+        items = [bare, disp] if rnd.random() < 0.5 else [disp, bare]  # the user move first, or after a shipped one
+        if rnd.random() < 0.3:
+            items.append({"type": "bare", "kind": "noop", "results": [rnd.choice([True, False])]})
+        return items
 
     @staticmethod
     def _labels_for(sc):
